@@ -94,6 +94,7 @@ func runSnapshot(t *testing.T, fx *fixtures, c verifCase, w *bufio.Writer) {
 	defer r.world.close()
 	r.router = NewRouter(r.state)
 	for _, line := range c.lines {
+		verifTick()
 		if line == "" || strings.HasPrefix(line, "#") {
 			fmt.Fprintln(w, line)
 			continue
